@@ -299,6 +299,8 @@ class JaxRandomShim:
     def __init__(self, symbolic_rolls=True):
         self.k = 0
         self.symbolic_rolls = symbolic_rolls
+        self.draws = []
+        self.choices = []
 
     def key(self, seed):
         return ("key", seed)
@@ -317,9 +319,16 @@ class JaxRandomShim:
         for i in range(n):
             self.k += 1
             out.append(sym_real(f"roll{self.k}", 0, 1, hi_open=True))
+        self.draws.append(out)
         if not shape:
             return out[0]
         return SymArr(np.asarray(out, dtype=object).reshape(shape))
+
+    def choice(self, key, a, *args, **kw):
+        self.k += 1
+        v = 9000 + self.k
+        self.choices.append((key, a, v))
+        return v
 
     def __getattr__(self, k):
         import jax
